@@ -147,6 +147,10 @@ impl<S: Database> Clone for StorageManager<S> {
 }
 pub trait VxClone { }
 pub uninterp spec fn epoch_record_read<S: Database>(storage: &StorageManager<S>, a: Azks) -> bool;
+// `served_read(st, a)`: `a` was returned by a read of the epoch record THROUGH the cache, i.e. it is the epoch this instance serves its
+// requests from at that moment. The poller must measure the storage's progress against THIS value: measured against a direct read, an
+// instance whose cache was filled before the epoch record arrived never flushes it and keeps serving the old epoch (C11, last sentence).
+pub uninterp spec fn served_read<S: Database>(storage: &StorageManager<S>, a: Azks) -> bool;
 pub uninterp spec fn user_state<S: Database>(storage: &StorageManager<S>, label: Seq<u8>, flag: ValueStateRetrievalFlag) -> Result<ValueState, StorageError>;
 pub uninterp spec fn mem_proof<S: Database>(azks: Azks, storage: &StorageManager<S>, label: NodeLabel) -> Result<MembershipProof, AkdError>;
 pub uninterp spec fn nonmem_proof<S: Database>(azks: Azks, storage: &StorageManager<S>, label: NodeLabel) -> Result<NonMembershipProof, AkdError>;
